@@ -61,6 +61,8 @@ I_SwapRemove(s, k)    == IF k \in Range(s) THEN I_SwapRemoveIdx(s, PosOf(s, k))
 I_Retain(s, S)        == [s |-> SelectSeqIn(s, S), r |-> None]
 I_Truncate(s, k)      == [s |-> IF k < Len(s) THEN SubSeq(s, 1, k) ELSE s, r |-> None]
 I_Clear(s)            == [s |-> <<>>, r |-> None]
+RenIn(s, x, n) == [i \in 1..Len(s) |-> IF s[i] = x THEN n ELSE s[i]]
+I_RetainRename(s, S, x, n) == [s |-> RenIn(SelectSeqIn(s, S), x, n), r |-> None]
 I_Rename(s, i, n)     == [s |-> IF i < Len(s) THEN [s EXCEPT ![i + 1] = n] ELSE s, r |-> None]
 I_Extend(s, t)        == [s |-> s \o t, r |-> None]
 I_Collect(t)          == [s |-> t, r |-> None]
@@ -104,6 +106,11 @@ M_SwapRemoveIdx(it, m, index) ==
 
 M_Retain(it, m, S) ==
     LET kept == SelectSeqIn(it, S) IN [items |-> kept, map |-> Rebuild(kept), r |-> None, p |-> FALSE]
+
+\* retain with a predicate that renames an item it keeps (the predicate receives &mut T): the map is built from the names
+\* the items have when the predicate returns
+M_RetainRename(it, m, S, x, n) ==
+    LET kept == RenIn(SelectSeqIn(it, S), x, n) IN [items |-> kept, map |-> Rebuild(kept), r |-> None, p |-> FALSE]
 
 M_Truncate(it, m, k) ==
     IF k < Len(it) THEN LET t == SubSeq(it, 1, k) IN [items |-> t, map |-> Rebuild(t), r |-> None, p |-> FALSE]
@@ -167,6 +174,9 @@ SwapRemove   == \E k \in Names : Apply(M_SwapRemove(items, map, k), I_SwapRemove
 SwapRemoveIdx == \E i \in 0..(Len(items) + 1) :
                     Apply(M_SwapRemoveIdx(items, map, i), I_SwapRemoveIdx(ideal, i), [op |-> "swap_remove_idx", i |-> i])
 Retain       == \E S \in SUBSET Names : Apply(M_Retain(items, map, S), I_Retain(ideal, S), [op |-> "retain", keep |-> S])
+RetainRename == \E S \in SUBSET Names : \E x \in S \cap Range(ideal) : \E n \in Fresh :
+                    Apply(M_RetainRename(items, map, S, x, n), I_RetainRename(ideal, S, x, n),
+                          [op |-> "retain_rename", keep |-> S, x |-> x, n |-> n])
 Truncate     == \E k \in 0..(Len(items) + 1) :
                     Apply(M_Truncate(items, map, k), I_Truncate(ideal, k), [op |-> "truncate", k |-> k])
 Clear        == \E x \in {0} : Apply(M_Clear(items, map), I_Clear(ideal), [op |-> "clear"])
@@ -180,7 +190,7 @@ Collect      == \E t \in SeqsOver(Names) :
 SortBy       == \E d \in Ranks :
                     Apply(M_Sort(items, map, RankOf(d)), I_Sort(ideal, RankOf(d)), [op |-> "sort_by", dir |-> d])
 
-Next == \/ Push \/ Pop \/ SwapRemove \/ SwapRemoveIdx \/ Retain \/ Truncate
+Next == \/ Push \/ Pop \/ SwapRemove \/ SwapRemoveIdx \/ Retain \/ RetainRename \/ Truncate
         \/ Clear \/ Rename \/ Extend \/ Collect \/ SortBy
 
 Spec == Init /\ [][Next]_vars
